@@ -145,6 +145,12 @@ inductive Pre where
       hooks and forward, so nothing is out and the response is still uncommitted (this is
       `C06.C06_refused_commit` seen from here); the panic then travels like any other. -/
   | commitAborted (c : Nat)
+  /-- `Response.Flush()` (also reached through `http.ResponseController` or a `FlushError` probe:
+      `echo.Response` offers only `Flush`) on an underlying writer that has neither `Flush` nor
+      `FlushError` (http.TimeoutHandler's writer, plain third-party wrappers): it commits with 200
+      like `flush` and THEN panics with echo's own error value, whose text is atom `t`
+      (`panic(errors.New("response writer flushing is not supported"))`).  See `flushPanics`. -/
+  | flushUnsupported (t : Atom)
 deriving DecidableEq, Repr, Inhabited
 
 def applyPre : Pre → Out
@@ -155,6 +161,7 @@ def applyPre : Pre → Out
   | .jsonBad _ => {}
   | .writeHeader c => { calls := [c], committed := true }
   | .commitAborted _ => {}
+  | .flushUnsupported _ => { calls := [200], committed := true }
 
 inductive PanicVal where
   | error (e : Err)     -- panic(err)
@@ -265,6 +272,13 @@ def start : Raise → Travel
 def serve (c : Case) : Outcome :=
   finish c.debug c.head (climb c.debug c.head c.layers.reverse (applyPre c.pre, start c.raise))
 
+/-- What the chain really sees when the failing code flushed a writer that cannot flush: the
+    panic of `Response.Flush`, whatever the code was going to do next (it never gets there). -/
+def flushPanics (c : Case) : Case :=
+  match c.pre with
+  | .flushUnsupported t => { c with raise := .panicked (.error (.plain t)) }
+  | _ => c
+
 /-! ### how often the chain hands an error to `Echo.HTTPErrorHandler` -/
 
 /-- the travel component of `layerStep`, and whether the layer invoked the error handler
@@ -345,6 +359,7 @@ def pPre : P Pre := do
   | 4 => pure (.jsonBad c)
   | 5 => pure (.writeHeader c)
   | 6 => pure (.commitAborted c)
+  | 7 => pure (.flushUnsupported c)
   | _ => failure
 
 def pRaise : P Raise := do
@@ -415,6 +430,6 @@ def encOutcome (c : Case) (customEH : Bool) : Outcome → List String
 def runLine (line : String) : String :=
   match parseLine (list pCase) line with
   | none => "bad-op"
-  | some cs => render (encList (fun (c, k) => encOutcome c k (serve c)) cs)
+  | some cs => render (encList (fun (c, k) => encOutcome (flushPanics c) k (serve (flushPanics c))) cs)
 
 end C07
